@@ -2155,14 +2155,26 @@ func tablesC20(c *Ctx) {
 	nTables := 0
 	if srv != nil {
 		if st, ok := srv.Underlying().(*types.Struct); ok {
+			// the server's own fields and those of the repository struct types it holds (a notifier type)
+			var flds []*types.Var
 			for i := 0; i < st.NumFields(); i++ {
-				arr, ok := st.Field(i).Type().Underlying().(*types.Array)
+				flds = append(flds, st.Field(i))
+				if n := tbDerefNamed(st.Field(i).Type()); n != nil && n.Obj().Pkg() == srv.Obj().Pkg() {
+					if ns, ok := n.Underlying().(*types.Struct); ok {
+						for j := 0; j < ns.NumFields(); j++ {
+							flds = append(flds, ns.Field(j))
+						}
+					}
+				}
+			}
+			for _, fv := range flds {
+				arr, ok := fv.Type().Underlying().(*types.Array)
 				if !ok {
 					continue
 				}
 				if en := tbDerefNamed(arr.Elem()); en != nil && en.Obj().Pkg() != nil && en.Obj().Pkg().Path() == "sync" && en.Obj().Name() == "Cond" {
 					if _, isPtr := arr.Elem().(*types.Pointer); isPtr {
-						tableLen, tableField = arr.Len(), st.Field(i)
+						tableLen, tableField = arr.Len(), fv
 						nTables++
 					}
 				}
